@@ -20,7 +20,12 @@ fn inert_item(item: &str) -> Result<bool, String> {
         let before = r.state;
         let o = r.feed(ch);
         if !o.in_domain {
-            return Err(format!("item {:?} contains a sequence outside the specified domain", item));
+            // more than one collected character (marker + intermediate, several intermediates)
+            // is unimplemented under every reading as long as the last collected character
+            // and the final do not spell an implemented function (DECSTR `! p`, `# 8`, `( x`)
+            if !(r.only_multi_collect && o.func.is_none()) {
+                return Err(format!("item {:?} contains a sequence outside the specified domain", item));
+            }
         }
         if o.func.is_some() || o.act == Act::Print {
             return Err(format!("item {:?} is not inert: {:?} yields {:?}", item, ch, o.func));
@@ -71,6 +76,7 @@ pub fn judge(_part: &str, case: &Case, tally: &mut Tally) -> Verdict {
     let base = Recipe { cols: case.cols, rows: case.rows, limit: case.limit, calls: calls.clone() };
     let mut vt = base.build();
     let _ = vt.feed_str(""); // priming: a fresh (or just reset) terminal reports every row dirty once
+    let mut force_battery = false;
     for item in &case.tail {
         let before_vis = visible(&vt);
         let before_lines = all_lines(&vt);
@@ -100,12 +106,19 @@ pub fn judge(_part: &str, case: &Case, tally: &mut Tally) -> Verdict {
         if all_lines(&vt) != before_lines {
             return Verdict::fail("lines", format!("inert item {:?} changed lines()", item));
         }
-        // avt's own parser must be back in ground state and must have returned no function
+        // avt's own parser must be back in ground state. A function object returned for an
+        // inert item is not a violation by itself (the statement speaks of effects), but it
+        // forces the full probe battery below.
         let mut p = avt::parser::Parser::new();
+        let mut returned_function = false;
         for ch in item.chars() {
-            if let Some(f) = p.feed(ch) {
-                return Verdict::fail("parser-function", format!("inert item {:?}: parser returned {:?} at {:?}", item, f, ch));
+            if p.feed(ch).is_some() {
+                returned_function = true;
             }
+        }
+        if returned_function {
+            tally.class("parser_returned_a_function");
+            force_battery = true;
         }
         if p.state != avt::parser::State::Ground {
             return Verdict::fail("parser-state", format!("inert item {:?}: parser left in {:?}", item, p.state));
@@ -122,7 +135,7 @@ pub fn judge(_part: &str, case: &Case, tally: &mut Tally) -> Verdict {
         }
     }
     // probe battery on a sample
-    if case.nums.first().copied().unwrap_or(0) == 1 {
+    if force_battery || case.nums.first().copied().unwrap_or(0) == 1 {
         let mut with: Vec<Call> = calls.clone();
         with.push(Call::FeedStr(case.tail.concat()));
         let wr = Recipe { cols: case.cols, rows: case.rows, limit: case.limit, calls: with };
@@ -233,6 +246,25 @@ fn enum_items() -> Vec<String> {
             }
         }
     }
+    // private marker AND intermediate together (incl. the implemented marker `?` with mode
+    // numbers): still an "intermediate" sequence, never a mode change. The DECSTR spelling
+    // (last intermediate `!`, final `p`) stays excluded.
+    for (mk, paramsets) in [('?', &["", "6", "1049", "25;7", "1;1047"][..]), ('<', &["1"][..]), ('=', &["1"][..]), ('>', &["4;2"][..])] {
+        for params in paramsets {
+            for im in (0x20u8..=0x2f).map(|b| b as char) {
+                for f in 0x40u8..=0x7e {
+                    let fc = f as char;
+                    if im == '!' && fc == 'p' {
+                        continue;
+                    }
+                    v.push(format!("\x1b[{mk}{params}{im}{fc}"));
+                }
+            }
+        }
+    }
+    for s in ["\u{9b}?1049 h", "\u{9b}?6$h", "\u{9b}?25'l", "\x1b[?7#l", "\x1b[?1 h", "\x1b[? 1049h", "\x1b[?1049  h", "\x1b[?1049 $h", "\x1b[>1 !q", "\x1b[?47\"h"] {
+        v.push(s.into());
+    }
     // selectors without a function on implemented finals
     for s in ["\x1b[4J", "\x1b[3K", "\x1b[1g", "\x1b[2g", "\x1b[1W", "\x1b[3W", "\x1b[4W", "\x1b[9t", "\x1b[7;1;1t"] {
         v.push(s.into());
@@ -289,7 +321,7 @@ pub fn run(env: &Env) -> PropRun {
         "enum-items",
         ni * states.len(),
         true,
-        "every CSI final 0x40-0x7E x {ESC [, U+009B} x 5 parameter shapes x {unimplemented plain, <, =, >, ? (non h/l), each intermediate except the DECSTR spelling}; ESC x intermediates x finals outside {#8, (x, )x}; bare ESC finals outside the implemented set; every unassigned C0/C1; 5 string kinds x 7/8-bit introducer x ST/U+009C/BEL x 10 payload classes - each from 4 prior states",
+        "every CSI final 0x40-0x7E x {ESC [, U+009B} x 5 parameter shapes x {unimplemented plain, <, =, >, ? (non h/l), each intermediate except the DECSTR spelling}; every marker (<, =, >, ?) combined with every intermediate and every final (? with mode-number parameter lists); ESC x intermediates x finals outside {#8, (x, )x}; bare ESC finals outside the implemented set; every unassigned C0/C1; 5 string kinds x 7/8-bit introducer x ST/U+009C/BEL x 10 payload classes - each from 4 prior states",
         &|i| {
             let mut c = Case::new(7, 4, None).feed(states[i / ni]);
             c.tail = vec![items[i % ni].clone()];
